@@ -62,7 +62,7 @@ Proof.
   split; [rewrite Hw, app_length; cbn; lia|]. split; [exact Hs|].
   intros n t L. revert F. unfold ingest.
   destruct (c_max_wal_bytes c <? wal_size s); [discriminate|].
-  destruct (prepare (c_seed c) b (tabs s) [] []) as [[[l1 created] colrows]| | | |] eqn:Ep;
+  destruct (prepare code_seed b (tabs s) [] []) as [[[l1 created] colrows]| | | |] eqn:Ep;
     cbn [bind]; try discriminate.
   destruct (apply_batch _ l1) as [l2| | | |] eqn:Ea; cbn [bind]; try discriminate.
   intro F. injection F as <-. cbn [tabs].
@@ -90,7 +90,7 @@ Qed.
 
 (* A flush of a reachable state cannot trip over its own bookkeeping: no "frozen buffer is not
    empty", no removal of a partition file or log segment that is not there, no compaction range out
-   of bounds.  It ends in a state, at a known-defect site of compaction (F1 / F3), in the u64
+   of bounds.  It ends in a state, at a guarded site of compaction (F1; incomplete name set), in the u64
    overflow of the size arithmetic, or at a catalogue-loading site. *)
 Theorem C18_flush_outcome :
   forall (c : cfg) (ops : list op) (bg : bool) (o : oracle) (s : db),
@@ -102,7 +102,7 @@ Proof. intros c ops bg o s H. apply flush_outcome. eapply reachable_inv; eauto. 
 
 (* non-vacuity: cycles of ingestion and flush with compaction; the directory after the last flush *)
 Definition ex_cfg : cfg :=
-  {| c_factor := 1; c_max_wal_files := 1000; c_max_wal_bytes := 250; c_seed := s_column_names |}.
+  {| c_factor := 1; c_max_wal_files := 1000; c_max_wal_bytes := 250 |}.
 Definition ex_t : name := [116].
 Definition ex_id : name := [105; 100].
 Definition ex_b (k : Z) : batch :=
